@@ -1327,6 +1327,11 @@ impl World for MsWorld {
         for (clause, detail) in fails.0.iter() {
             let prop = if clause == "harness_prediction" { "HARNESS" } else { "C15" };
             tr.fail(prop, clause, &kind, detail);
+            // on-behalf operations: rewards that do not reach the position OWNER are also C19's clause
+            // "rewards claimed on behalf go to the position owner"
+            if clause == "unstake_outputs" && matches!(kind.as_str(), "stakeFor" | "claimFor") {
+                tr.fail("C19", "on_behalf_rules", &kind, detail);
+            }
         }
         if ok {
             tr.count(&format!("ok.{kind}"));
